@@ -71,7 +71,7 @@ def make_recording_orchestrator():
 
 
 def run_nodes(nodes: List[Dict[str, Any]], data: Any, ctx: Dict[str, Any], *, trace=None,
-              pipeline=None) -> Dict[str, Any]:
+              pipeline=None, orchestrator=None) -> Dict[str, Any]:
     """Run a node list on (data, ctx) through the real Pipeline and return the observation."""
     from semantiva.context_processors import ContextType
     from semantiva.pipeline import Payload, Pipeline
@@ -79,7 +79,9 @@ def run_nodes(nodes: List[Dict[str, Any]], data: Any, ctx: Dict[str, Any], *, tr
 
     obs: Dict[str, Any] = {"construct_error": None, "raised": None, "exc_class": None, "exc": None,
                            "started": 0, "oks": [], "final": None}
-    orch = make_recording_orchestrator()
+    orch = orchestrator or make_recording_orchestrator()
+    started0 = orch._started
+    nev0 = len(orch.events)
     try:
         p = pipeline or Pipeline(copy.deepcopy(nodes), orchestrator=orch, trace=trace)
         if pipeline is not None:
@@ -96,7 +98,7 @@ def run_nodes(nodes: List[Dict[str, Any]], data: Any, ctx: Dict[str, Any], *, tr
         obs["raised"] = f"{type(exc).__name__}: {str(exc)[:200]}"
         obs["exc_class"] = classify_exc(exc)
         obs["exc"] = exc
-    obs["started"] = orch._started
-    obs["oks"] = [(e[2], e[3]) for e in orch.events if e[0] == "ok"]
+    obs["started"] = orch._started - started0
+    obs["oks"] = [(e[2], e[3]) for e in orch.events[nev0:] if e[0] == "ok"]
     obs["pipeline"] = p
     return obs
